@@ -211,6 +211,7 @@ func runProperty(repo, verif, prop string, cfg *PropCfg, tier string, overlay ma
 		fc     *FnCtx
 		o      *Obl
 		script string
+		sliced string
 		v      *Verdict
 	}
 	var jobs []*job
@@ -223,7 +224,7 @@ func runProperty(repo, verif, prop string, cfg *PropCfg, tier string, overlay ma
 			res.Abstract = append(res.Abstract, a)
 		}
 		for _, o := range fc.obls {
-			jobs = append(jobs, &job{fc: fc, o: o, script: fc.Query(o, true)})
+			jobs = append(jobs, &job{fc: fc, o: o, script: fc.Query(o, true), sliced: fc.QueryOpt(o, true, true)})
 		}
 		// vacuity: (a) the requires alone must be satisfiable, (b) not every return site may be unreachable, (c) every loop
 		// header must be reachable together with its assumed invariants. A single unreachable return site is only noted
@@ -252,7 +253,21 @@ func runProperty(repo, verif, prop string, cfg *PropCfg, tier string, overlay ma
 	var fns []func()
 	for _, j := range jobs {
 		j := j
-		fns = append(fns, func() { j.v = Discharge(j.o, j.script, work, timeoutFor(j.o), all) })
+		fns = append(fns, func() {
+			// sliced query first (cone of influence; dropping hypotheses is sound), the full context as fallback
+			if len(j.sliced) < len(j.script)*9/10 {
+				v := Discharge(j.o, j.sliced, work, timeoutFor(j.o), all)
+				if v.Status == "proved" {
+					j.v = v
+					return
+				}
+				full := Discharge(j.o, j.script, work, timeoutFor(j.o), all)
+				full.Secs += v.Secs
+				j.v = full
+				return
+			}
+			j.v = Discharge(j.o, j.script, work, timeoutFor(j.o), all)
+		})
 	}
 	for _, j := range covers {
 		j := j
